@@ -438,6 +438,7 @@ type FuncContract struct {
 	Pure      bool
 	Inline    bool
 	Held      []string // mutexes held on entry: expressions like "s.mu"
+	Acquires  []string // mutexes held on return
 	Asserts   []*Clause // "assert at call Callee#k: expr"
 	GhostSets []*Clause // ghost updates
 	GhostUpdates []*GhostUpdate
@@ -490,7 +491,7 @@ func newContractSet() *ContractSet {
 var clauseKeywords = map[string]bool{
 	"func": true, "extern": true, "requires": true, "requires_locked": true, "ensures": true, "modifies": true, "nopanic": true,
 	"loop": true, "specfunc": true, "ghost": true, "ghostsum": true, "ghost_set": true, "lockinv": true, "axiom": true, "trusted": true,
-	"pure": true, "inline": true, "held": true, "assert": true, "package": true, "invariant": true,
+	"pure": true, "inline": true, "held": true, "acquires": true, "assert": true, "package": true, "invariant": true,
 }
 
 // splitLabel splits "label: expr" (label is a bare identifier followed by ':' but not '::').
@@ -677,6 +678,9 @@ func (cs *ContractSet) parseContractText(file, pkgPath string, lines []string, l
 			cur.Inline = true
 		case "held":
 			cur.Held = append(cur.Held, strings.TrimSpace(rest))
+		case "acquires":
+			// the function returns holding this mutex (e.g. "result.mu")
+			cur.Acquires = append(cur.Acquires, strings.TrimSpace(rest))
 		case "assert":
 			c, err := mk("assert", rest, it.line)
 			if err != nil {
